@@ -251,6 +251,6 @@ func VP_C20_readdir_info_mode() {
 	vp.Assert(fi.ModTime().Unix() == in.modifyTime.Unix(), "Info().ModTime() = mtime")
 	vp.Assert(!fi.IsDir(), "regular file is not a directory")
 	vp.Assert(fi.Mode()&os.ModeType == 0, "Info().Mode() type bits of a regular file")
-	vp.AssertUnless("KF-C20-3", mode&0o777 != 0, uint16(fi.Mode().Perm()) == mode&0o777, "Info().Mode() carries the permission bits of i_mode")
+	vp.Assert(uint16(fi.Mode().Perm()) == mode&0o777, "Info().Mode() carries the permission bits of i_mode")
 	vp.Cover("ReadDir entry info")
 }
